@@ -52,3 +52,61 @@ Example c06_nonvacuous :
               a_signature_validated := false |} in
   option_map w_not_in_audience (match verify_conditions cfg {| i_sec := 1704100000; i_nsec := 0 |} a with Ok w => Some w | Err _ => None end) = Some true.
 Proof. vm_compute. reflexivity. Qed.
+
+(* ---------- multisets, order, clock: what the audience warning does NOT depend on ---------- *)
+(* two restriction lists "say the same" when every restriction of one has a restriction of the other with the same
+   members (so: any order of restrictions, any order and multiplicity of audiences inside a restriction, repeated
+   restrictions) *)
+Definition covers (l1 l2 : list (list string)) : Prop :=
+  forall R, In R l1 -> exists R', In R' l2 /\ forall x, In x R' -> In x R.
+
+Lemma bool_eq_of_iff (b1 b2 : bool) : (b1 = true <-> b2 = true) -> b1 = b2.
+Proof. destruct b1, b2; intros [H1 H2]; try reflexivity; [symmetry; apply H1; reflexivity | apply H2; reflexivity]. Qed.
+
+Lemma audience_warning_depends_on_member_sets_only cfg now1 now2 a1 a2 w1 w2 c1 c2 :
+  verify_conditions cfg now1 a1 = Ok w1 -> verify_conditions cfg now2 a2 = Ok w2 ->
+  a_conditions a1 = Some c1 -> a_conditions a2 = Some c2 ->
+  covers (c_audience_restrictions c1) (c_audience_restrictions c2) ->
+  covers (c_audience_restrictions c2) (c_audience_restrictions c1) ->
+  w_not_in_audience w1 = w_not_in_audience w2.
+Proof.
+  intros H1 H2 C1 C2 K12 K21.
+  destruct (not_in_audience_exact _ _ _ _ H1) as (c1' & C1' & I1).
+  destruct (not_in_audience_exact _ _ _ _ H2) as (c2' & C2' & I2).
+  rewrite C1 in C1'. inversion C1'; subst c1'. rewrite C2 in C2'. inversion C2'; subst c2'.
+  apply bool_eq_of_iff. rewrite I1, I2. split.
+  - intros (R & HR & HN). destruct (K12 R HR) as (R' & HR' & Hsub). exists R'. split; [exact HR'|].
+    intros x Hx. apply HN. apply Hsub. exact Hx.
+  - intros (R & HR & HN). destruct (K21 R HR) as (R' & HR' & Hsub). exists R'. split; [exact HR'|].
+    intros x Hx. apply HN. apply Hsub. exact Hx.
+Qed.
+
+Lemma covers_refl l : covers l l.
+Proof. intros R HR. exists R. split; [exact HR | auto]. Qed.
+
+(* the audience / one-time-use / proxy findings of an assertion do not depend on the clock *)
+Lemma non_time_warnings_clock_independent cfg now1 now2 a w1 w2 :
+  verify_conditions cfg now1 a = Ok w1 -> verify_conditions cfg now2 a = Ok w2 ->
+  w_not_in_audience w1 = w_not_in_audience w2 /\ w_one_time_use w1 = w_one_time_use w2 /\
+  w_proxy_restriction w1 = w_proxy_restriction w2.
+Proof.
+  intros H1 H2.
+  destruct (not_in_audience_exact _ _ _ _ H1) as (c & C & _).
+  split; [eapply audience_warning_depends_on_member_sets_only; eauto using covers_refl|].
+  destruct (otu_proxy_mirror _ _ _ _ _ H1 C) as [A1 B1]. destruct (otu_proxy_mirror _ _ _ _ _ H2 C) as [A2 B2].
+  split; congruence.
+Qed.
+
+(* adding a restriction can only ADD the warning (restrictions are conjunctive) ... *)
+Lemma more_restrictions_more_warning cfg now1 now2 a1 a2 w1 w2 c1 c2 :
+  verify_conditions cfg now1 a1 = Ok w1 -> verify_conditions cfg now2 a2 = Ok w2 ->
+  a_conditions a1 = Some c1 -> a_conditions a2 = Some c2 ->
+  incl (c_audience_restrictions c1) (c_audience_restrictions c2) ->
+  w_not_in_audience w1 = true -> w_not_in_audience w2 = true.
+Proof.
+  intros H1 H2 C1 C2 Hincl W1.
+  destruct (not_in_audience_exact _ _ _ _ H1) as (c1' & C1' & I1).
+  destruct (not_in_audience_exact _ _ _ _ H2) as (c2' & C2' & I2).
+  rewrite C1 in C1'. inversion C1'; subst c1'. rewrite C2 in C2'. inversion C2'; subst c2'.
+  apply I2. apply I1 in W1. destruct W1 as (R & HR & HN). exists R. split; [apply Hincl; exact HR | exact HN].
+Qed.
